@@ -130,7 +130,7 @@ func Discharge(s *Session, want func(*Oblig) bool, cfg SolverCfg) {
 	}
 	release()
 	var wg sync.WaitGroup
-	sem := make(chan struct{}, 4)
+	sem := make(chan struct{}, 5)
 	for i, ob := range order {
 		r := res[i]
 		if r == "" {
@@ -143,7 +143,7 @@ func Discharge(s *Session, want func(*Oblig) bool, cfg SolverCfg) {
 		if ob.Cover || ob.Canary {
 			expected = "sat"
 		}
-		if r == expected && !cfg.Thorough {
+		if r == expected && (!cfg.Thorough || !crossCheck(ob)) {
 			countWin(ob.Solver)
 			continue
 		}
@@ -161,11 +161,55 @@ func Discharge(s *Session, want func(*Oblig) bool, cfg SolverCfg) {
 			defer wg.Done()
 			sem <- struct{}{}
 			defer func() { <-sem }()
-			raceStandalone(s, ob, cfg)
+			c2 := cfg
+			if ob.Result == "unsat" && !ob.Cover && !ob.Canary {
+				// cross-check of an obligation that is already discharged: a solver that has no answer
+				// within 30 s has no opinion (only sat-vs-unsat disagreement counts)
+				c2.TimeoutMs = 30000
+				keep := *ob
+				raceStandalone(s, ob, c2)
+				if ob.Result != "unsat" && ob.Result != "error" && ob.Result != "sat" {
+					*ob = keep
+				}
+				return
+			}
+			raceStandalone(s, ob, c2)
 		}(ob)
 	}
 	wg.Wait()
 }
+
+// crossCheck: in the thorough tier an obligation that z3 4.8 discharged is re-decided standalone by all
+// three solvers. That is affordable for a bounded number of obligations only: the clauses that state the
+// property (not the safety / frame obligations that come by the thousand) up to a budget, chosen by name hash.
+var xcheckBudget = 600
+var xcheckUsed int
+var XcheckDone int
+
+func crossCheck(ob *Oblig) bool {
+	for _, t := range ob.Tags {
+		if t == "safety" || t == "frame" || t == "vacuity" {
+			return false
+		}
+	}
+	solverMu.Lock()
+	defer solverMu.Unlock()
+	if xcheckUsed >= xcheckBudget {
+		return false
+	}
+	h := 0
+	for _, c := range ob.Name {
+		h = (h*31 + int(c)) % 1000003
+	}
+	if (h+xcheckSeed)%3 != 0 && xcheckBudget < 100000 {
+		return false
+	}
+	xcheckUsed++
+	XcheckDone++
+	return true
+}
+
+var xcheckSeed int
 
 func countWin(solver string) {
 	solverMu.Lock()
